@@ -110,7 +110,7 @@ PROPS["C15"] = dict(
 
 PROPS["C02"] = dict(
     level="model_checking", exhaustive=True,
-    stages=lambda tier, seed: [mc("matrix", "MC_C02", "MC_C02_%s.cfg" % tier), gen("apiwalk", G.api_walks(300 if tier == "quick" else 20000, 60), dopts=TRACK)],
+    stages=lambda tier, seed: [mc("matrix", "MC_C02", "MC_C02_%s.cfg" % tier), mc("faults", "MC_C02", "MC_C02_fault.cfg", dopts=dict(extra=("--fault", "--fault-only", "Verify"), timeout=60), target_ops=1), gen("apiwalk", G.api_walks(300 if tier == "quick" else 20000, 60), dopts=TRACK)],
     rule=
          "finite matrix enumerated by TLC from MC_C02: (A) configured alg x key (absent, or key type x alg attribute "
          "incl. none, unknown and a family prefix such as HS) x {setkey, callback} on checker and builder; (B) every "
@@ -124,8 +124,12 @@ PROPS["C02"] = dict(
          "(checker and builder). (E) key swap: the object holds a default key whose alg attribute pins its algorithm "
          "(setkey with no or the matching explicit algorithm) and the callback hands over another key of the same family "
          "that has no alg attribute and names no algorithm (checker: token signed by that key under the default key's "
-         "algorithm; builder: generate). quick uses one key per family and 9 of 16 configured algs, thorough all. "
-         "distinct = distinct cells (script hashes).",
+         "algorithm; builder: generate). (F) the object holds a key whose alg attribute pins its algorithm and the "
+         "callback keeps that key but names another algorithm of the same family (token genuinely signed under that other"
+         " algorithm; builder: generate). Stage 'faults': every allocation request made inside jwt_checker_verify fails "
+         "once on the classic substitutions (HMAC under the public PEM / the empty key, another key, unsigned, stripped, "
+         "a sibling algorithm) through setkey and through the callback. quick uses one key per family and 9 of 16 "
+         "configured algs, thorough all. distinct = distinct cells (script hashes).",
     assumptions=ASSUME_COMMON,
     level_text="The space is finite and TLC enumerates it completely within the chosen key set; the reference "
                "outcome is shown to satisfy C02 on every cell, and every cell is executed against libjwt and judged "
@@ -139,18 +143,21 @@ PROPS["C02"] = dict(
 
 PROPS["C03"] = dict(
     level="model_checking", exhaustive=True,
-    stages=lambda tier, seed: [mc("matrix", "MC_C03", "MC_C03_%s.cfg" % tier), gen("apiwalk", G.api_walks(300 if tier == "quick" else 20000, 60), dopts=TRACK)],
+    stages=lambda tier, seed: [mc("matrix", "MC_C03", "MC_C03_%s.cfg" % tier), mc("faults", "MC_C03", "MC_C03_fault.cfg", dopts=dict(extra=("--fault", "--fault-only", "Verify"), timeout=60), target_ops=1), gen("apiwalk", G.api_walks(300 if tier == "quick" else 20000, 60), dopts=TRACK)],
     rule=
          "finite matrix from MC_C03: checker set-ups (key loaded but not set / set with or without explicit alg; key with"
          " and without alg attribute) x callback {none, empty, sets key, sets alg, sets both, key + alg none} x header "
          "alg {none, None, NONE, the matching algorithm, missing, each non-string JSON type, none followed by a space or "
          "by a NUL character, the empty string, n} x signature {empty, valid, garbage} x shape {3 segments, 2 segments, 4"
-         " segments, 4 with empty last}; the key-less checker against every token class; builder set-ups x the same "
-         "callbacks -> generate; the callback's life cycle (setcb, context-only setcb(NULL, ctx), setcb(NULL, NULL) in "
-         "seven orders) before a generate / verify on objects keyed only through the callback. Every one of the 13 "
-         "algorithms pinned (setkey and callback) on a private key of every type without alg attribute (oct 32/64, RSA "
-         "2048/3072, P-256/384/521, secp256k1, Ed25519, Ed448) under both providers -> generate: whatever a keyed builder"
-         " returns carries a signature. oct and RSA keys in quick, all key types in thorough. distinct = distinct cells.",
+         " segments, 4 with empty last}; the key-less checker against every token class and every one of the 13 algorithm"
+         " names in the header; builder set-ups x the same callbacks -> generate; the callback's life cycle (setcb, "
+         "context-only setcb(NULL, ctx), setcb(NULL, NULL) in seven orders) before a generate / verify on objects keyed "
+         "only through the callback. Every one of the 13 algorithms pinned (setkey and callback) on a private key of "
+         "every type without alg attribute (oct 32/64, RSA 2048/3072, P-256/384/521, secp256k1, Ed25519, Ed448) under "
+         "both providers -> generate: whatever a keyed builder returns carries a signature. Stage 'faults': every "
+         "allocation request made inside jwt_checker_verify fails once on keyed checkers (setkey, setkey + callback, key "
+         "through the callback only) handed unsigned and stripped tokens. oct and RSA keys in quick, all key types in "
+         "thorough. distinct = distinct cells.",
     assumptions=ASSUME_COMMON,
     level_text="Complete enumeration of the configuration x token-shape matrix on the specification (reference outcome "
                "satisfies C03 on every cell) and replay of every cell into libjwt; an accepted token must be signed "
@@ -165,6 +172,7 @@ PROPS["C01"] = dict(
     level="model_checking", exhaustive=True,
     stages=lambda tier, seed: [mc("matrix", "MC_C01", "MC_C01_%s.cfg" % tier, expand=G.replicate(3 if tier == "quick" else 300)),
                                gen("rotation", G.c01_rotation(2 if tier == "quick" else 10), dopts=dict(env=G.ZEROQ)),
+                               mc("faults", "MC_C01", "MC_C01_fault.cfg", dopts=dict(extra=("--fault", "--fault-only", "Verify"), timeout=60), target_ops=1),
                                gen("apiwalk", G.api_walks(300 if tier == "quick" else 20000, 60), dopts=TRACK)],
     rule=
          "matrix from MC_C01: (key, algorithm) pairs covering oct, RSA (PKCS1 and PSS, incl. an RSA-PSS typed key), "
@@ -186,8 +194,11 @@ PROPS["C01"] = dict(
          "accepted), callback removed: B's token must be refused again and A's accepted, over 6 key pairs x both "
          "providers. Refused configuration: after a setkey that is refused (algorithm of another family, algorithm "
          "without a key, a key whose alg attribute contradicts, INVAL) the unsigned, the stripped and another key's token"
-         " stay refused and the genuine one accepted, 4 key pairs x 6 refused calls x both providers. Tokens reach the "
-         "library in heap blocks of exactly their size. distinct = distinct cells x reps.",
+         " stay refused and the genuine one accepted, 4 key pairs x 6 refused calls x both providers. Stage 'faults': "
+         "every allocation request made inside jwt_checker_verify fails once (4 key types x both providers x no callback "
+         "/ empty callback / reading callback) on tokens that must be refused (payload altered after signing, flipped "
+         "bit, stripped, unsigned, other key): running short of memory is no reason to accept. Tokens reach the library "
+         "in heap blocks of exactly their size. distinct = distinct cells x reps.",
     assumptions=ASSUME_COMMON + ["cryptography is treated as perfect: a mutated valid signature is assumed invalid (by construction, not by TLC)"],
     level_text="Exhaustive over the abstract cells (key class x algorithm x provider x signature/alteration class); "
                "within a cell bytes are sampled. Accepting any cell whose class is not 'valid signature by the "
@@ -203,16 +214,17 @@ PROPS["C09"] = dict(
     rule=
          "matrix from MC_C09 (every pair through setkey AND through a callback that hands over key and algorithm): oct "
          "keys of length {0,1,16,31,32,33,47,48,49,63,64,65,100,160} (quick) / every length 0..160 (thorough) x "
-         "HS256/384/512 (keys without alg attribute, and keys of 1..100 bytes whose JWK names the algorithm); RSA moduli "
-         "of 512, 1024, 2040, 2047, 2048, 2056, 3072, 4096 bits x RS/PS algorithms; P-256/384/521 and secp256k1 x every "
-         "ES algorithm; Ed25519 and Ed448; algorithm x key of another kind altogether (EdDSA/ES256/RS256/HS256 with EC, "
-         "RSA, OKP and oct keys, token signed genuinely under the key's own algorithm); each through generate (private "
-         "key), verify of the generated token and verify of a token signed by the driver's own signer (public key), on "
-         "OpenSSL and GnuTLS. Reuse scripts: one checker, the same key first under the algorithm it is made for "
-         "(accepted), then - through setkey or the callback - under an algorithm that asks for more (ES256 -> "
-         "ES384/ES512, ES384 -> ES512, HS256 -> HS384/HS512, ...) with a token genuinely signed with that hash by that "
-         "key, then the first token again. Both directions are judged: below the floor never succeeds, at or above it "
-         "works. distinct = distinct cells.",
+         "HS256/384/512 (keys without alg attribute, and keys of 1..100 bytes whose JWK names the algorithm); oct keys of"
+         " 31..65 octets whose k is written with '=' padding (the key is as long as its octets); RSA moduli of 512, 1024,"
+         " 2040, 2047, 2048, 2056, 3072, 4096 bits x RS/PS algorithms; P-256/384/521 and secp256k1 x every ES algorithm; "
+         "Ed25519 and Ed448; algorithm x key of another kind altogether (EdDSA/ES256/RS256/HS256 with EC, RSA, OKP and "
+         "oct keys, token signed genuinely under the key's own algorithm); each through generate (private key), verify of"
+         " the generated token and verify of a token signed by the driver's own signer (public key), on OpenSSL and "
+         "GnuTLS. Reuse scripts: one checker, the same key first under the algorithm it is made for (accepted), then - "
+         "through setkey or the callback - under an algorithm that asks for more (ES256 -> ES384/ES512, ES384 -> ES512, "
+         "HS256 -> HS384/HS512, ...) with a token genuinely signed with that hash by that key, then the first token "
+         "again. Both directions are judged: below the floor never succeeds, at or above it works. distinct = distinct "
+         "cells.",
     assumptions=ASSUME_COMMON,
     level_text="The matrix is finite and enumerated completely (every oct length in thorough); TLC shows the reference "
                "outcome satisfies C09 on every cell and every cell is executed against libjwt.",
@@ -224,7 +236,7 @@ PROPS["C09"] = dict(
 
 PROPS["C14"] = dict(
     level="model_checking", exhaustive=True,
-    stages=lambda tier, seed: [mc("causes", "MC_C14", "MC_C14_%s.cfg" % tier), gen("apiwalk", G.api_walks(300 if tier == "quick" else 20000, 60), dopts=TRACK)],
+    stages=lambda tier, seed: [mc("causes", "MC_C14", "MC_C14_%s.cfg" % tier), mc("faultsv", "MC_C14", "MC_C14_faultv.cfg", dopts=dict(extra=("--fault", "--fault-only", "Verify"), timeout=60), target_ops=1), mc("faultsg", "MC_C14", "MC_C14_faultg.cfg", dopts=dict(extra=("--fault", "--fault-only", "Generate"), timeout=60), target_ops=1), mc("faultsl", "MC_C14", "MC_C14_faultl.cfg", dopts=dict(extra=("--fault", "--fault-only", "Load"), timeout=60), target_ops=1), gen("apiwalk", G.api_walks(300 if tier == "quick" else 20000, 60), dopts=TRACK)],
     rule=
          "one script per failure cause from MC_C14: 40 failing token classes (NULL/empty, missing dots, header not base64"
          " / not JSON / not an object / without or with non-string or unknown alg (incl. names of 239, 240, 241, 300 and "
@@ -234,9 +246,12 @@ PROPS["C14"] = dict(
          " checker; 12 policy causes (no key, refused setkey, iss/aud mismatch, callback error, callback-selected "
          "inadmissible key/alg, key below floor, wrong family, unknown alg attribute); 17 builder causes, plus five keys "
          "that failed to import but still say \"private\" given to the builder by setkey and by its callback under four "
-         "algorithms; 28 JWK defects (incl. unknown kty / crv values of 300 characters); value set/get calls incl. string"
-         " values that are not UTF-8 on a fresh name, on an existing one with and without replace, and from a generate "
-         "callback (every request carries a stale error code in its jwt_value_t). distinct = distinct scripts.",
+         "algorithms; 39 JWK defects (attribute members key_ops / use / kid / alg of the wrong JSON type on otherwise "
+         "good keys: if the item is refused it is explained) (incl. unknown kty / crv values of 300 characters); stages "
+         "faultsv / faultsg / faultsl: every allocation request made inside verify / generate / a key load fails once - "
+         "return value, error flag and message still agree, every errored item is explained; value set/get calls incl. "
+         "string values that are not UTF-8 on a fresh name, on an existing one with and without replace, and from a "
+         "generate callback (every request carries a stale error code in its jwt_value_t). distinct = distinct scripts.",
     assumptions=ASSUME_COMMON,
     level_text="Every externally reachable failure cause the specification knows (its reject classes) is enumerated by "
                "TLC and executed; after each call the return value, the error flag and the message-non-empty bit "
@@ -251,22 +266,26 @@ PROPS["C04"] = dict(
     level="model_checking", exhaustive=True,
     stages=lambda tier, seed: [
         mc("lattice", "MC_C04", "MC_C04_%s.cfg" % tier),
+        mc("faults", "MC_C04", "MC_C04_fault.cfg", dopts=dict(extra=("--fault", "--fault-only", "Verify"), timeout=60), target_ops=1),
         gen("walk", G.c04_walks(4000 if tier == "quick" else 200000)),
         gen("apiwalk", G.api_walks(300 if tier == "quick" else 20000, 60), dopts=TRACK),
     ],
     rule=
          "from MC_C04: boundary lattice exp - (now - leeway) and nbf - (now + leeway) in {-2..2} for now in {0, 1.7e9, "
-         "2^40} x leeway in {-1, 0, 1, 300, 2^31, 2^40}, far values and 64-bit extremes, defaults without any "
-         "configuration call, both claims at once, every JSON type in place of exp/nbf, 26 expected/actual string pairs "
-         "(prefix, suffix, case, empty, non-ASCII, embedded NUL, wrong type, absent; values of 255..65536 characters that"
-         " are equal, differ in the last character only, or are a prefix of one another) for iss/sub/aud, all "
-         "combinations of three string checks; all sequences of up to 2 (quick) / 3 (thorough) configuration calls over a"
-         " 14-call alphabet (incl. refused calls: leeway for iat, claim_set / claim_del for exp and nbf) followed by five"
-         " probe tokens; callback scripts: a callback that adds, corrects or removes iss/sub/aud/exp/nbf on the token "
-         "object it is handed, against tokens that lack, miss or meet the expectation (the checks are made on what the "
-         "token carries); every case with an unsigned and an HS256-signed token. Plus seeded random cases with uniformly "
-         "drawn 64-bit exp/nbf, clocks and leeways. 64-bit values are compared in TLC as limb triples (Wide.tla). "
-         "distinct = distinct scripts.",
+         "2^40, -1, -2, 1} ((time_t)-1 is also one second before the epoch) x leeway in {-1, 0, 1, 300, 2^31, 2^40}, far "
+         "values and 64-bit extremes, defaults without any configuration call, both claims at once, every JSON type in "
+         "place of exp/nbf, 26 expected/actual string pairs (prefix, suffix, case, empty, non-ASCII, embedded NUL, wrong "
+         "type, absent; values of 255..65536 characters that are equal, differ in the last character only, or are a "
+         "prefix of one another) for iss/sub/aud, all combinations of three string checks; all sequences of up to 2 "
+         "(quick) / 3 (thorough) configuration calls over a 14-call alphabet (incl. refused calls: leeway for iat, "
+         "claim_set / claim_del for exp and nbf) followed by five probe tokens; callback scripts: a callback that adds, "
+         "corrects or removes iss/sub/aud/exp/nbf on the token object it is handed, against tokens that lack, miss or "
+         "meet the expectation (the checks are made on what the token carries); stage 'faults': every allocation request "
+         "made inside jwt_checker_verify fails once on checkers with an expectation (no callback, empty callback, a "
+         "callback that rewrites the failing claims) handed tokens that fail it (wrong / missing iss, expired, not yet "
+         "valid, exp of the wrong type); every case with an unsigned and an HS256-signed token. Plus seeded random cases "
+         "with uniformly drawn 64-bit exp/nbf, clocks and leeways. 64-bit values are compared in TLC as limb triples "
+         "(Wide.tla). distinct = distinct scripts.",
     assumptions=ASSUME_COMMON,
     level_text="Exhaustive on the boundary lattice and the bounded configuration histories (TLC shows the reference "
                "satisfies C04 there), every case executed against libjwt and judged in both directions: accepted "
@@ -279,7 +298,9 @@ PROPS["C04"] = dict(
 
 PROPS["C19"] = dict(
     level="model_checking", exhaustive=True,
-    stages=lambda tier, seed: [mc("progs", "MC_C19", "MC_C19_%s.cfg" % tier), gen("apiwalk", G.api_walks(300 if tier == "quick" else 20000, 60), dopts=TRACK)],
+    stages=lambda tier, seed: [mc("progs", "MC_C19", "MC_C19_%s.cfg" % tier),
+                               mc("faults", "MC_C19", "MC_C19_fault.cfg", dopts=dict(extra=("--fault", "--fault-only", "Verify"), timeout=60), target_ops=1),
+                               gen("apiwalk", G.api_walks(300 if tier == "quick" else 20000, 60), dopts=TRACK)],
     rule=
          "from MC_C19: all callback programs of up to 2 (quick) / 3 (thorough) steps over 16 header/claim steps (delete "
          "exp/nbf/iss/aud, delete all claims, delete all headers, delete/replace header alg, replace exp/nbf with passing"
@@ -289,8 +310,10 @@ PROPS["C19"] = dict(
          " its own key): the first callback selects another key, the second (a successor that returns 0 and edits the "
          "token or does nothing, or no callback after setcb(NULL, NULL)) leaves the configuration alone - tokens of both "
          "keys; context-only updates setcb(NULL, ctx) after a refusing / key-selecting callback (the callback stays), "
-         "after setcb(NULL, NULL) (refused); every verify is repeated on an identically configured checker without the "
-         "callback and both verdicts are logged. distinct = distinct scripts.",
+         "after setcb(NULL, NULL) (refused); stage 'faults': every allocation request made inside jwt_checker_verify "
+         "fails once on checkers whose callback rewrites the very claim the token fails on (a verify that met a fault may"
+         " refuse, it never accepts what the checker without callback refuses); every verify is repeated on an "
+         "identically configured checker without the callback and both verdicts are logged. distinct = distinct scripts.",
     assumptions=ASSUME_COMMON,
     level_text="Programs are enumerated exhaustively up to the bound by TLC; on the specification the verdict is a "
                "function of the parsed token and the configuration after the callback, never of the callback's edits; "
@@ -319,11 +342,13 @@ PROPS["C13"] = dict(
          " then valid and invalid ES256 tokens); stage 'heap': sequences of 4 over 9 elements (canonical tokens of two "
          "header lengths, tokens whose header and/or payload segment is not canonically encoded - unused bits set -, a "
          "bad signature, error_clear) under an application allocator whose fresh blocks hold something else each time "
-         "(blank, NUL, '}', 'A', 0xbe, '\"'): the same answer every time whatever the heap held; every verify/generate is "
-         "also performed on a freshly created twin configured by replaying the same configuration calls, and both results"
-         " are logged; besides reused = fresh, every verdict must be the one the specification computes from "
-         "configuration, token and clock (clause C13.function), so a dependence on hidden state that a fresh object on "
-         "the same thread shares is seen too. distinct = distinct sequences.",
+         "(blank, NUL, '}', 'A', 0xbe, '\"'): the same answer every time whatever the heap held; a memo family: RS256 and "
+         "EdDSA (deterministic signatures) - the token just accepted, then the same signature under a payload / a header "
+         "altered after signing; every verify/generate is also performed on a freshly created twin configured by "
+         "replaying the same configuration calls, and both results are logged; besides reused = fresh, every verdict must"
+         " be the one the specification computes from configuration, token and clock (clause C13.function), so a "
+         "dependence on hidden state that a fresh object on the same thread shares is seen too. distinct = distinct "
+         "sequences.",
     assumptions=ASSUME_COMMON + ["'identically configured' = the same sequence of configuration calls replayed on a new object"],
     level_text="TLC enumerates every history up to the bound; on the specification the configuration a verdict is "
                "computed from is shown to be a function of the configuration calls alone (invariant "
@@ -413,18 +438,19 @@ PROPS["C12"] = dict(
          " first/any bit, truncated, extended with zero/random bytes, signed over other text, other key, sibling "
          "algorithm, ES: zero-extended r||s and DER} and header/payload altered after signing; (A') the same with key "
          "attributes neither provider consumes (use, key_ops of six kinds) and the PRIVATE form of the key as "
-         "verification key; (B) deterministic algorithms (HS*, RS*, EdDSA): the same builder generates under provider 1 "
-         "and provider 2, token digests must be equal and each provider verifies both; randomised ones (PS*, ES*): cross "
-         "acceptance; (C) all pairs of set_crypto_ops/_t calls over 12 names (exact, case variants, padded, prefixes, "
-         "unknown, empty) and ids -1..5, 99; (D) one driver process per JWT_CRYPTO value {openssl, gnutls, GnuTLS, "
-         "'gnutls ', mbedtls, '', x, opensslgnutls, unset}. (E) history: an unusable JWKS member, a refused RS256 and a "
-         "refused ES512 token under either provider before the verdict comparison. Each matrix cell is concretised 2 "
-         "(quick) / 60 (thorough) times. (F) private OKP keys whose x member is ANOTHER key's public half: identical "
-         "tokens from both providers, mutual acceptance, acceptance by the true public key. Stage 'rotation': sign with "
-         "key A, free its keyring, load key B (same type for six pairs, another type for three), sign, verify under both "
-         "providers, 2..3 (quick) / up to 13 (thorough) rotations per script - run with a zero ASan quarantine so that "
-         "the freed key's address is reused at once; the token must carry the current key's signature and both providers "
-         "must accept it.",
+         "verification key; (A'') the provider is the process's: after every selection a second thread reads, and in some"
+         " scripts makes, the selection - both threads see the same provider; (B) deterministic algorithms (HS*, RS*, "
+         "EdDSA): the same builder generates under provider 1 and provider 2, token digests must be equal and each "
+         "provider verifies both; randomised ones (PS*, ES*): cross acceptance; (C) all pairs of set_crypto_ops/_t calls "
+         "over 12 names (exact, case variants, padded, prefixes, unknown, empty) and ids -1..5, 99; (D) one driver "
+         "process per JWT_CRYPTO value {openssl, gnutls, GnuTLS, 'gnutls ', mbedtls, '', x, opensslgnutls, unset}. (E) "
+         "history: an unusable JWKS member, a refused RS256 and a refused ES512 token under either provider before the "
+         "verdict comparison. Each matrix cell is concretised 2 (quick) / 60 (thorough) times. (F) private OKP keys whose"
+         " x member is ANOTHER key's public half: identical tokens from both providers, mutual acceptance, acceptance by "
+         "the true public key. Stage 'rotation': sign with key A, free its keyring, load key B (same type for six pairs, "
+         "another type for three), sign, verify under both providers, 2..3 (quick) / up to 13 (thorough) rotations per "
+         "script - run with a zero ASan quarantine so that the freed key's address is reused at once; the token must "
+         "carry the current key's signature and both providers must accept it.",
     assumptions=ASSUME_COMMON,
     level_text="TLC enumerates the matrix and checks on the specification that verdicts and deterministic tokens do "
                "not depend on the provider variable and that the provider changes only on an exact name/id; each "
@@ -514,9 +540,10 @@ PROPS["C08"] = dict(
          "width, minimal, zero-padded by 1 and 3 bytes) x extra-member set (none, members of other key types, unknown "
          "members; unknown members of every JSON type - true, false, number, real, null, object - for every key type) "
          "with plain metadata; OKP keys whose x or d begins with a zero octet, oct keys whose first / last octet is NUL, "
-         "newline, space, '=' or 0xff; as a single JWK and inside a JWKS; key_ops lists of every single operation, every "
-         "ordered pair (incl. a repeated name), every set of seven and the reverse order on an oct, an EC and an OKP key;"
-         " and 'history' cells: each of five defective keys (point not on the curve, unknown curve, short coordinate, "
+         "newline, space, '=' or 0xff, oct keys whose k is written WITH '=' padding (1..65 octets: the octets are the "
+         "decoding of k); as a single JWK and inside a JWKS; key_ops lists of every single operation, every ordered pair "
+         "(incl. a repeated name), every set of seven and the reverse order on an oct, an EC and an OKP key; and "
+         "'history' cells: each of five defective keys (point not on the curve, unknown curve, short coordinate, "
          "incomplete RSA private key, short OKP key) imported before a well-formed key of every type - in the same set "
          "and by an earlier call on the same thread. Stage 'fresh' repeats every 9th (quick) / every 2nd (thorough, 4 "
          "times) cell with key material generated on the spot (OpenSSL keygen, fresh oct bytes). The driver exports with "
